@@ -27,6 +27,15 @@ CHECKS["C03"] = (
     "tracer hook records every stage; oracle: returns a list, no exception/assertion, no revisited loop state (lasso), "
     "<= 30 iterations, <= 120 s CPU", "8/C03")
 
+SEM = ("bounded-exhaustive exploration of the real pass over a slot grammar x all instances x all answer sets, "
+       "clingo as reference model")
+CHECKS["C11"] = (SEM, "every program GROUP x EXTRA x CONTEXT x definition is run through optimize(symmetry only); for "
+                 "every subset of the fact universe all answer sets of source and result are compared as multisets on "
+                 "voc(P) with costs", "8/C11")
+CHECKS["C16"] = (SEM, "every rule HEAD x 3..4-subset of the body-literal menu is run through optimize(projection only); "
+                 "for every instance of <= 4 facts all answer sets of source and result are compared as multisets on "
+                 "voc(P); an unsafe/invalid result is a violation", "8/C16")
+
 ALL = [f"C{i:02d}" for i in range(1, 21)]
 
 
